@@ -137,7 +137,7 @@ impl Prop for C12 {
         if stage == 0 {
             let progs = programs(tier);
             for i in a..b {
-            out.idx = Some(i);
+            out.at(i);
                 let t = &progs[i as usize];
                 // put the tree through the parser in shapes the parser would not choose itself
                 for variant in forced_shapes(t) {
@@ -157,7 +157,7 @@ impl Prop for C12 {
         if stage == 2 {
             let hs = rereg_histories();
             for i in a..b {
-            out.idx = Some(i);
+            out.at(i);
                 // second half: the same histories with every re-registration (all steps but the
                 // first) made by another, joined thread
                 let (h, xthread) = (&hs[i as usize % hs.len()], i as usize >= hs.len());
@@ -169,7 +169,7 @@ impl Prop for C12 {
         }
         let s = seqs(tier);
         for i in a..b {
-            out.idx = Some(i);
+            out.at(i);
             let text = s.spaced(i);
             roundtrip(&text, &ops, "tokens", out);
         }
